@@ -90,7 +90,44 @@ EXTRA_CALLS = {   # C12's own templates for engine-sensitive functions checks/c1
 }
 
 
-def function_calls(info):
+CAST_OTHER = {"bigint": "double", "int": "bigint", "double": "decimal(24,8)", "string": "varchar(100)", "date": "timestamp",
+              "timestamp": "string", "boolean": "boolean"}
+
+
+def shaped_variants(calls, sensitive, tier):
+    """Argument SHAPES for the engine-sensitive functions: every column-name argument of a template is also passed as
+      cast    a Column cast to ANOTHER type          F.col(c).cast(<other>)
+      nested  the result of another function         F.coalesce(F.col(c), F.col(c)) / F.to_timestamp(F.col(c)) for dates
+      alias   an aliased Column                      F.col(c).alias('zz')
+    one argument position at a time.  Engine-specific alternatives inspect their operands (is it already a Cast? a Column? an
+    int?), so a plain column name does not exercise them.  The comparison is engine session vs DuckDB session on the same call,
+    so it does not matter that a shape changes the value."""
+    from checks import c17_cases as K
+    types = dict(K.SCHEMA)
+    out = []
+    per_fn = {}
+    for c in calls:
+        if c["fn"] not in sensitive or c.get("tag") == "shape":
+            continue
+        per_fn[c["fn"]] = per_fn.get(c["fn"], 0) + 1
+        if tier == "quick" and per_fn[c["fn"]] > 1:
+            continue                      # quick tier: the first template of each function; thorough: all
+        for pos, a in enumerate(c["args"]):
+            col = a.get("c")
+            ty = types.get(col)
+            if ty is None or ty.startswith("array"):
+                continue
+            shapes = {"cast": f"F.col('{col}').cast('{CAST_OTHER[ty]}')",
+                      "nested": f"F.to_timestamp(F.col('{col}'))" if ty == "date" else f"F.coalesce(F.col('{col}'), F.col('{col}'))",
+                      "alias": f"F.col('{col}').alias('zz')"}
+            for sh, src in shapes.items():
+                args = [dict(x) for x in c["args"]]
+                args[pos] = {"e": src}
+                out.append({"id": f"{c['id']}@{pos}:{sh}", "fn": c["fn"], "mode": c["mode"], "args": args, "kwargs": c["kwargs"], "tag": "shape"})
+    return out
+
+
+def function_calls(info, tier="thorough"):
     """-> (call specs, engine-sensitive function names, sensitive functions without a template)"""
     from checks import c17_cases as K
     calls = [c for c in K.all_calls()]
@@ -100,10 +137,26 @@ def function_calls(info):
     sensitive = set((info or {}).get("sensitive", []))
     if not sensitive:          # translator failed: drive everything
         sensitive = {c["fn"] for c in calls}
+    calls += shaped_variants(calls, sensitive, tier)
     templated = {c["fn"] for c in calls}
     not_templated = {f: K.NOT_EXERCISED.get(f, "no typed template (private helper, environment-dependent or schema-typed input)")
                      for f in sorted(sensitive - templated)}
     return calls, sensitive | {"Column.getItem"}, not_templated
+
+
+def solo_ids(calls):
+    """per engine: the calls to drive one per statement -- those the recorded baseline does NOT expect to be clean there (rejected,
+    unsupported on DuckDB, a recorded non-fixed-point text) or does not know; the others are driven several per statement and
+    redone singly whenever their statement misbehaves"""
+    outcomes, text = load_baseline(), load_baseline("text")
+    res = {}
+    duck_bad = {c for e in outcomes for c, o in outcomes[e].items() if o == "duck-unsupported"}
+    for e in ENGINES:
+        oc = outcomes.get(e, {})
+        res[e] = [c["id"] for c in calls
+                  if c["id"] in text.get(e, {}) or c["id"] in duck_bad
+                  or (e != "duckdb" and oc.get(c["id"]) not in ("agree", "names-differ", "differ"))]
+    return res
 
 
 def run_worker(engine, req):
@@ -337,12 +390,12 @@ def run(ctx: core.Ctx):
     fn_names = sorted((info or {}).get("functions", {})) if info else []
     # function calls: every typed template (all engine-sensitive functions -- those that read the session, an alternative or
     # another dispatched function, T1 -- and the rest) on all seven engines, in both tiers (about 15 s)
-    calls, sensitive, not_templated = function_calls(info)
+    calls, sensitive, not_templated = function_calls(info, ctx.tier)
     # the relational-core programs run on DuckDB + 3 rotating engines in the quick tier -- on all of them when a proof / T1 item broke
     core_engines = engines if proved else list(ENGINES)
     if not proved and ctx.tier == "quick":
         ctx.log("a proof / T1 item broke: escalating the relational-core programs to all engines")
-    base_req = {"tables": {k: [list(r) for r in v] for k, v in c01.TABLES.items()}, "calls": calls,
+    base_req = {"tables": {k: [list(r) for r in v] for k, v in c01.TABLES.items()}, "calls": calls, "solo_ids": solo_ids(calls),
                 "dispatch_names": fn_names + ["no_such_function_c12"], "programs": [], "tables_for": {}, "sql_dialects": {},
                 "action_programs": []}
     core_req = dict(base_req, programs=programs, tables_for=tables_for, sql_dialects=sql_dialects, action_programs=action_programs)
